@@ -30,6 +30,10 @@ var Sigma = []string{
 	"/a/", `/a\/b/`, "/a", "/(/",
 	// odd bytes
 	"#", "é", "👍", "\x00", "\xff", `\`,
+	// one representative per Unicode class that a predicate written for ASCII may get wrong: the empty quoted
+	// identifier, other digits, a non-ASCII decimal digit, a fullwidth digit, a superscript, the two letters that
+	// lower-case to ASCII, a line separator and a byte-order mark
+	`""`, "9", "x9", "0", "\u0663", "\uff11", "\u00b2", "\u212a", "\u0130", "\u2028", "\ufeff",
 }
 
 // Core is the subset used by quick tiers (one trigger per branch, fewer near-duplicates).
@@ -43,6 +47,7 @@ var Core = []string{
 	"--c\n", "--c", "/*c*/", "/*c",
 	"/a/", "/a",
 	"#", "é", "\x00", "\xff", `\`,
+	`""`, "$1", "9", "\u0663", "\u212a",
 }
 
 // Separators used when joining lexemes so that line/column arithmetic crosses them.
